@@ -182,3 +182,138 @@ pub proof fn lemma_filter_all<T>(s: Seq<T>, p: spec_fn(T) -> bool)
         }
     }
 }
+
+// ---- evict_expired_services ----
+// `map.retain(|_, records| !records.is_empty())`
+#[verifier::external_body]
+pub fn vx_map_drop_empty<T>(m: &mut HashMap<String, Vec<T>>)
+    ensures
+        forall|k: String| #[trigger] final(m)@.contains_key(k) <==> old(m)@.contains_key(k) && old(m)@[k]@.len() > 0,
+        forall|k: String| #[trigger] final(m)@.contains_key(k) ==> final(m)@[k] == old(m)@[k],
+{ unimplemented!() }
+
+pub open spec fn alias_of(r: DnsRecordIntf) -> Option<Seq<char>> { payload_alias(r.record.payload()) }
+pub open spec fn expired_rec(r: DnsRecordIntf, now: u64) -> bool { now >= r.record.rec().expires }
+// every SRV record held for the instance has run out
+pub open spec fn srv_gone(s0: Map<String, Vec<DnsRecordIntf>>, inst: Seq<char>, now: u64) -> bool { m_has(s0, inst) && s0[key_string(inst)]@.filter(live_at(now)).len() == 0 }
+pub type PtrEnts = Seq<(String, Vec<DnsRecordIntf>)>;
+// position (e, i) of the PTR map has been handled: entries before ne completely, of entry ne the first ni records
+pub open spec fn handled(e: int, i: int, ne: int, ni: int) -> bool { e < ne || (e == ne && i < ni) }
+// a reason to report instance `inst` under the type of entry e: a PTR record of that type that points to it and has expired
+// (PTR pass, ni_ptr) or whose instance has no live SRV record left (SRV pass, ni_srv)
+pub open spec fn reason(ents: PtrEnts, s0: Map<String, Vec<DnsRecordIntf>>, e: int, inst: Seq<char>, ne: int, ni_srv: int, ni_ptr: int, now: u64) -> bool {
+    exists|i: int| 0 <= i < ents[e].1@.len() && alias_of(#[trigger] ents[e].1@[i]) == Some(inst)
+        && ((handled(e, i, ne, ni_srv) && srv_gone(s0, inst, now)) || (handled(e, i, ne, ni_ptr) && expired_rec(ents[e].1@[i], now)))
+}
+pub open spec fn only_true(r: Map<String, HashSet<String>>, ents: PtrEnts, s0: Map<String, Vec<DnsRecordIntf>>, ne: int, ni_srv: int, ni_ptr: int, now: u64) -> bool {
+    forall|ty: String, x: String| #![trigger r[ty]@.contains(x)] r.contains_key(ty) && r[ty]@.contains(x) ==>
+        exists|e: int| 0 <= e < ents.len() && (#[trigger] ents[e]).0 == ty && reason(ents, s0, e, x@, ne, ni_srv, ni_ptr, now)
+}
+pub open spec fn all_reported(r: Map<String, HashSet<String>>, ents: PtrEnts, s0: Map<String, Vec<DnsRecordIntf>>, ne: int, ni_srv: int, ni_ptr: int, now: u64) -> bool {
+    forall|e: int, i: int| 0 <= e < ents.len() && 0 <= i < ents[e].1@.len() && alias_of(#[trigger] ents[e].1@[i]) is Some
+        && ((handled(e, i, ne, ni_srv) && srv_gone(s0, alias_of(ents[e].1@[i])->Some_0, now)) || (handled(e, i, ne, ni_ptr) && expired_rec(ents[e].1@[i], now)))
+        ==> r.contains_key(ents[e].0) && r[ents[e].0]@.contains(key_string(alias_of(ents[e].1@[i])->Some_0))
+}
+// a record map in which some lists have been replaced by their unexpired part
+pub open spec fn partly_evicted(m: Map<String, Vec<DnsRecordIntf>>, m0: Map<String, Vec<DnsRecordIntf>>, now: u64) -> bool {
+    m.dom() == m0.dom() && forall|k: String| #[trigger] m.contains_key(k) ==> m[k]@ == m0[k]@ || m[k]@ == m0[k]@.filter(live_at(now))
+}
+// ... among them the lists of every instance a handled PTR record points to
+pub open spec fn evicted_for_handled(m: Map<String, Vec<DnsRecordIntf>>, m0: Map<String, Vec<DnsRecordIntf>>, ents: PtrEnts, ne: int, ni: int, now: u64) -> bool {
+    forall|e: int, i: int| 0 <= e < ents.len() && 0 <= i < ents[e].1@.len() && handled(e, i, ne, ni) && alias_of(#[trigger] ents[e].1@[i]) is Some && m_has(m0, alias_of(ents[e].1@[i])->Some_0)
+        ==> m[key_string(alias_of(ents[e].1@[i])->Some_0)]@ == m0[key_string(alias_of(ents[e].1@[i])->Some_0)]@.filter(live_at(now))
+}
+pub proof fn lemma_filter_idem<T>(s: Seq<T>, p: spec_fn(T) -> bool)
+    ensures s.filter(p).filter(p) == s.filter(p),
+    decreases s.len(),
+{
+    reveal_with_fuel(Seq::filter, 2);
+    if s.len() > 0 {
+        let d = s.drop_last();
+        lemma_filter_idem(d, p);
+        let fd = d.filter(p);
+        if p(s.last()) {
+            let f = fd.push(s.last());
+            assert(s.filter(p) == f);
+            assert(f.drop_last() == fd);
+            assert(f.last() == s.last());
+        }
+    }
+}
+// what `entry(k).or_insert_with(HashSet::new).insert(x)` does to the pairs (type, instance) listed by the map
+pub proof fn lemma_set_insert<T>(pre: Map<String, HashSet<T>>, post: Map<String, HashSet<T>>, k: String, x: T)
+    requires
+        post.dom() == pre.dom().insert(k),
+        forall|j: String| j != k && pre.contains_key(j) ==> #[trigger] post[j] == pre[j],
+        post[k]@ == (if pre.contains_key(k) { pre[k]@ } else { Set::<T>::empty() }).insert(x),
+    ensures
+        forall|ty: String, y: T| #![trigger pre[ty]@.contains(y)] pre.contains_key(ty) && pre[ty]@.contains(y) ==> post.contains_key(ty) && post[ty]@.contains(y),
+        forall|ty: String, y: T| #![trigger post[ty]@.contains(y)] post.contains_key(ty) && post[ty]@.contains(y) ==> (ty == k && y == x) || (pre.contains_key(ty) && pre[ty]@.contains(y)),
+        post.contains_key(k) && post[k]@.contains(x),
+{
+    assert forall|ty: String, y: T| #![trigger pre[ty]@.contains(y)] pre.contains_key(ty) && pre[ty]@.contains(y) implies post.contains_key(ty) && post[ty]@.contains(y) by {
+        if ty != k { assert(post[ty] == pre[ty]); }
+    }
+    assert forall|ty: String, y: T| #![trigger post[ty]@.contains(y)] post.contains_key(ty) && post[ty]@.contains(y) implies (ty == k && y == x) || (pre.contains_key(ty) && pre[ty]@.contains(y)) by {
+        if ty != k { assert(pre.contains_key(ty)); assert(post[ty] == pre[ty]); }
+    }
+}
+
+pub proof fn lemma_only_true_mono(r: Map<String, HashSet<String>>, ents: PtrEnts, s0: Map<String, Vec<DnsRecordIntf>>, ne: int, a: int, b: int, ne2: int, a2: int, b2: int, now: u64)
+    requires only_true(r, ents, s0, ne, a, b, now), ne < ne2 || (ne == ne2 && a <= a2 && b <= b2),
+    ensures only_true(r, ents, s0, ne2, a2, b2, now),
+{
+    assert forall|ty: String, x: String| #![trigger r[ty]@.contains(x)] r.contains_key(ty) && r[ty]@.contains(x) implies
+        exists|e: int| 0 <= e < ents.len() && (#[trigger] ents[e]).0 == ty && reason(ents, s0, e, x@, ne2, a2, b2, now) by {
+        let e = choose|e: int| 0 <= e < ents.len() && (#[trigger] ents[e]).0 == ty && reason(ents, s0, e, x@, ne, a, b, now);
+        let i = choose|i: int| 0 <= i < ents[e].1@.len() && alias_of(#[trigger] ents[e].1@[i]) == Some(x@)
+            && ((handled(e, i, ne, a) && srv_gone(s0, x@, now)) || (handled(e, i, ne, b) && expired_rec(ents[e].1@[i], now)));
+        assert(alias_of(ents[e].1@[i]) == Some(x@) && ((handled(e, i, ne2, a2) && srv_gone(s0, x@, now)) || (handled(e, i, ne2, b2) && expired_rec(ents[e].1@[i], now))));
+        assert(reason(ents, s0, e, x@, ne2, a2, b2, now));
+    }
+}
+pub proof fn lemma_only_true_insert(pre: Map<String, HashSet<String>>, post: Map<String, HashSet<String>>, ents: PtrEnts, s0: Map<String, Vec<DnsRecordIntf>>, ne: int, a: int, b: int, k: String, x: String, now: u64)
+    requires
+        only_true(pre, ents, s0, ne, a, b, now), 0 <= ne < ents.len(), ents[ne].0 == k, reason(ents, s0, ne, x@, ne, a, b, now),
+        forall|ty: String, y: String| #![trigger post[ty]@.contains(y)] post.contains_key(ty) && post[ty]@.contains(y) ==> (ty == k && y == x) || (pre.contains_key(ty) && pre[ty]@.contains(y)),
+    ensures only_true(post, ents, s0, ne, a, b, now),
+{
+    assert forall|ty: String, y: String| #![trigger post[ty]@.contains(y)] post.contains_key(ty) && post[ty]@.contains(y) implies
+        exists|e: int| 0 <= e < ents.len() && (#[trigger] ents[e]).0 == ty && reason(ents, s0, e, y@, ne, a, b, now) by {
+        if ty == k && y == x { assert(ents[ne].0 == ty); } else { assert(pre.contains_key(ty) && pre[ty]@.contains(y)); }
+    }
+}
+pub proof fn lemma_all_reported_step(pre: Map<String, HashSet<String>>, post: Map<String, HashSet<String>>, ents: PtrEnts, s0: Map<String, Vec<DnsRecordIntf>>, ne: int, a: int, b: int, a2: int, b2: int, now: u64)
+    requires
+        all_reported(pre, ents, s0, ne, a, b, now), 0 <= ne < ents.len(),
+        (a2 == a + 1 && b2 == b && 0 <= a < ents[ne].1@.len()) || (a2 == a && b2 == b + 1 && 0 <= b < ents[ne].1@.len()),
+        forall|ty: String, y: String| #![trigger pre[ty]@.contains(y)] pre.contains_key(ty) && pre[ty]@.contains(y) ==> post.contains_key(ty) && post[ty]@.contains(y),
+        a2 == a + 1 && alias_of(ents[ne].1@[a]) is Some && srv_gone(s0, alias_of(ents[ne].1@[a])->Some_0, now) ==> post.contains_key(ents[ne].0) && post[ents[ne].0]@.contains(key_string(alias_of(ents[ne].1@[a])->Some_0)),
+        b2 == b + 1 && alias_of(ents[ne].1@[b]) is Some && expired_rec(ents[ne].1@[b], now) ==> post.contains_key(ents[ne].0) && post[ents[ne].0]@.contains(key_string(alias_of(ents[ne].1@[b])->Some_0)),
+    ensures all_reported(post, ents, s0, ne, a2, b2, now),
+{
+    assert forall|e: int, i: int| 0 <= e < ents.len() && 0 <= i < ents[e].1@.len() && alias_of(#[trigger] ents[e].1@[i]) is Some
+        && ((handled(e, i, ne, a2) && srv_gone(s0, alias_of(ents[e].1@[i])->Some_0, now)) || (handled(e, i, ne, b2) && expired_rec(ents[e].1@[i], now)))
+        implies post.contains_key(ents[e].0) && post[ents[e].0]@.contains(key_string(alias_of(ents[e].1@[i])->Some_0)) by {
+        let inst = alias_of(ents[e].1@[i])->Some_0;
+        if (handled(e, i, ne, a) && srv_gone(s0, inst, now)) || (handled(e, i, ne, b) && expired_rec(ents[e].1@[i], now)) {
+            assert(pre.contains_key(ents[e].0) && pre[ents[e].0]@.contains(key_string(inst)));
+        }
+    }
+}
+pub proof fn lemma_next_entry(r: Map<String, HashSet<String>>, ents: PtrEnts, s0: Map<String, Vec<DnsRecordIntf>>, ne: int, now: u64)
+    requires 0 <= ne < ents.len(), only_true(r, ents, s0, ne, ents[ne].1@.len() as int, ents[ne].1@.len() as int, now), all_reported(r, ents, s0, ne, ents[ne].1@.len() as int, ents[ne].1@.len() as int, now),
+    ensures only_true(r, ents, s0, ne + 1, 0, 0, now), all_reported(r, ents, s0, ne + 1, 0, 0, now),
+{
+    lemma_only_true_mono(r, ents, s0, ne, ents[ne].1@.len() as int, ents[ne].1@.len() as int, ne + 1, 0, 0, now);
+    assert forall|e: int, i: int| 0 <= e < ents.len() && 0 <= i < ents[e].1@.len() && alias_of(#[trigger] ents[e].1@[i]) is Some
+        && ((handled(e, i, ne + 1, 0) && srv_gone(s0, alias_of(ents[e].1@[i])->Some_0, now)) || (handled(e, i, ne + 1, 0) && expired_rec(ents[e].1@[i], now)))
+        implies r.contains_key(ents[e].0) && r[ents[e].0]@.contains(key_string(alias_of(ents[e].1@[i])->Some_0)) by {
+        assert(handled(e, i, ne, ents[ne].1@.len() as int));
+    }
+}
+
+#[verifier::external_body]
+pub fn vx_remove_str<V>(m: &mut HashMap<String, V>, k: &str)
+    ensures final(m)@ == old(m)@.remove(key_string(k@)),
+{ unimplemented!() }
